@@ -78,7 +78,17 @@ func c01Cfg(recv, mustrr, keep string) RCfg {
 	return cfg
 }
 
+var c01Parties = map[string][2]string{
+	"plain":      {"\"A\" <sip:alice@ua.example.net>", "<sip:bob@svc.example.com>"},
+	"mixed-case": {"\"Al Ice\" <sip:Alice@Atlanta.Example.COM>", "<sip:Bob@Biloxi.Example.COM>"},
+	"decorated":  {"<sip:alice:pw@ua.example.net:5070;user=phone;foo?Subject=a%20b>", "\"B\" <sips:bob@svc.example.com;transport=tcp>"},
+	"tel-urn":    {"<tel:+15551234;phone-context=Example.COM>", "<urn:service:sos>"},
+	"addr-spec":  {"sip:alice@UA.example.net", "sip:bob@SVC.example.com"},
+}
+
 type c01In struct {
+	parties                  string
+	pipelined                bool
 	path, arrival, departure string
 	method                   string
 	status                   int
@@ -92,14 +102,23 @@ type c01In struct {
 func c01Build(in c01In) *WMsg {
 	dep := strings.ToUpper(in.departure)
 	arr := strings.ToUpper(in.arrival)
+	pt, ok := c01Parties[in.parties]
+	if !ok {
+		pt = c01Parties["plain"]
+	}
+	from, to := pt[0]+";tag=f1", pt[1]+";tag=t1"
 	var m *WMsg
 	if in.path == "response" {
 		sp := MsgSpec{Status: in.status, Reason: "Some Reason Phrase", Vias: []string{"SIP/2.0/" + arr + " 127.0.0.1:5060;branch=z9hG4bKproxy", "SIP/2.0/" + dep + " 127.0.0.9:5060;branch=z9hG4bKua"},
-			From: "\"A\" <sip:alice@ua.example.net>;tag=f1", To: "<sip:bob@svc.example.com>;tag=t1", CallID: "c01@host", CSeq: "7 " + in.method, Pre: in.pre, Extra: in.extra, Body: in.body}
+			From: from, To: to, CallID: "c01@host", CSeq: "7 " + in.method, Pre: in.pre, Extra: in.extra, Body: in.body}
 		m = sp.Build()
 	} else {
 		sp := MsgSpec{Method: in.method, RURI: in.ruri, Vias: []string{"SIP/2.0/" + arr + " 127.0.0.9:5060;branch=z9hG4bKua"},
-			From: "\"A\" <sip:alice@ua.example.net>;tag=f1", To: "<sip:bob@nomatch.example.org>", CallID: "c01@host", CSeq: "7 " + in.method, Pre: in.pre, Extra: in.extra, Body: in.body}
+			From: from, To: "<sip:bob@nomatch.example.org>", CallID: "c01@host", CSeq: "7 " + in.method, Pre: in.pre, Extra: in.extra, Body: in.body}
+		if in.path == "backend" && in.parties != "" && in.parties != "plain" {
+			// an in-dialog request to the service: the dialog identifiers are computed on this path
+			sp.To = to
+		}
 		switch in.path {
 		case "backend":
 			if in.departure == "tcp" {
@@ -170,38 +189,98 @@ func c01Run(in c01In) (string, string, bool) {
 		// not relayed at all: not a C01 matter (C02/C03 own the decision); counted as trivial
 		return "", "", false
 	}
+	if in.pipelined {
+		return c01Pipelined(in, w, m)
+	}
 	if len(obs.Pkts) != 1 {
 		return "relayed-more-than-once", desc(fmt.Sprintf("%d emissions for one message", len(obs.Pkts))), true
 	}
-	out, err := ReadWire(obs.Pkts[0].Data)
+	if cl, d := c01Compare(m, obs.Pkts[0].Data); cl != "" {
+		return cl, desc(d), true
+	}
+	return "", "", true
+}
+
+// c01Compare: the emission against the message it relays.
+func c01Compare(m *WMsg, data []byte) (string, string) {
+	out, err := ReadWire(data)
 	if err != nil {
-		return "unreadable-emission", desc(err.Error()), true
+		return "unreadable-emission", err.Error()
 	}
 	if out.Start != m.Start {
-		return "start-line", desc(fmt.Sprintf("start line %q became %q", m.Start, out.Start)), true
+		return "start-line", fmt.Sprintf("start line %q became %q", m.Start, out.Start)
 	}
 	a, b := c01Others(m), c01Others(out)
 	for i := 0; i < len(a) || i < len(b); i++ {
 		switch {
 		case i >= len(b):
-			return "field-dropped", desc(fmt.Sprintf("field %q: %s is missing from the relayed message (it carries %d of %d fields)", a[i].Name, short([]byte(a[i].Value)), len(b), len(a))), true
+			return "field-dropped", fmt.Sprintf("field %q: %s is missing from the relayed message (it carries %d of %d fields)", a[i].Name, short([]byte(a[i].Value)), len(b), len(a))
 		case i >= len(a):
-			return "field-added", desc(fmt.Sprintf("field %q: %s was added", b[i].Name, short([]byte(b[i].Value)))), true
+			return "field-added", fmt.Sprintf("field %q: %s was added", b[i].Name, short([]byte(b[i].Value)))
 		case a[i].Name != b[i].Name:
-			return "field-name-or-order", desc(fmt.Sprintf("position %d: field %q became %q", i, a[i].Name, b[i].Name)), true
+			return "field-name-or-order", fmt.Sprintf("position %d: field %q became %q", i, a[i].Name, b[i].Name)
 		case a[i].Value != b[i].Value:
-			return "field-value", desc(fmt.Sprintf("field %q: value %s became %s", a[i].Name, short([]byte(a[i].Value)), short([]byte(b[i].Value)))), true
+			return "field-value", fmt.Sprintf("field %q: value %s became %s", a[i].Name, short([]byte(a[i].Value)), short([]byte(b[i].Value)))
 		}
 	}
 	cls := out.All("content-length")
 	if len(cls) != 1 {
-		return "content-length-count", desc(fmt.Sprintf("%d Content-Length fields (any spelling) in the relayed message: %v", len(cls), cls)), true
+		return "content-length-count", fmt.Sprintf("%d Content-Length fields (any spelling) in the relayed message: %v", len(cls), cls)
 	}
 	if n, err := strconv.Atoi(cls[0]); err != nil || n != len(out.Body) {
-		return "content-length-value", desc(fmt.Sprintf("Content-Length %q but %d body bytes follow", cls[0], len(out.Body))), true
+		return "content-length-value", fmt.Sprintf("Content-Length %q but %d body bytes follow", cls[0], len(out.Body))
 	}
 	if !bytes.Equal(out.Body, m.Body) {
-		return "body", desc(fmt.Sprintf("body of %d bytes became %d bytes (first difference at %d)", len(m.Body), len(out.Body), firstDiff(m.Body, out.Body))), true
+		return "body", fmt.Sprintf("body of %d bytes became %d bytes (first difference at %d)", len(m.Body), len(out.Body), firstDiff(m.Body, out.Body))
+	}
+	return "", ""
+}
+
+// c01Pipelined: three more requests written at once on the same TCP connection (the receive
+// goroutine runs ahead of the message loop); each emission must relay its own message.
+func c01Pipelined(in c01In, w *RelayWorld, first *WMsg) (string, string, bool) {
+	var msgs []*WMsg
+	var raw []byte
+	for k := 0; k < 3; k++ {
+		m := first.Clone()
+		body := append([]byte(fmt.Sprintf("pipelined-%d|", k)), in.body...)
+		if len(body) > 3000 {
+			body = body[:3000]
+		}
+		for i := k; i < len(body); i += 7 {
+			body[i] ^= byte(k + 1)
+		}
+		m.Body = body
+		for i := range m.Hdrs {
+			switch canonName(m.Hdrs[i].Name) {
+			case "call-id":
+				m.Hdrs[i].Value = fmt.Sprintf("c01-pipe-%d@host", k)
+			case "content-length":
+				m.Hdrs[i].Value = strconv.Itoa(len(body))
+			}
+		}
+		msgs = append(msgs, m)
+		raw = append(raw, m.Render()...)
+	}
+	w.Observe()
+	w.SendTCP(w.Client("c1", "127.0.0.9", "127.0.0.1:5062"), raw)
+	obs := w.Observe()
+	if vd := w.S.Verdict(); vd != "" {
+		return "health", vd, true
+	}
+	for k, m := range msgs {
+		var mine [][]byte
+		for _, p := range obs.Pkts {
+			if bytes.Contains(p.Data, []byte(fmt.Sprintf("c01-pipe-%d@host", k))) {
+				mine = append(mine, p.Data)
+			}
+		}
+		if len(mine) != 1 {
+			return "pipelined-not-relayed-once", fmt.Sprintf("message %d of 3 pipelined on one TCP connection was relayed %d times (%s)", k, len(mine), obs.Summary()), true
+		}
+		if cl, d := c01Compare(m, mine[0]); cl != "" {
+			return "pipelined-" + cl, fmt.Sprintf("message %d of 3 pipelined on one TCP connection: %s\nsent %s\nrelayed %s", k, d, short(m.Render()), short(mine[0])), true
+		}
 	}
 	return "", "", true
 }
@@ -236,7 +315,7 @@ func init() {
 	cln := []string{"Content-Length", "l", "content-length", "CONTENT-LENGTH", "L"}
 	// (A) content enumeration on the default configuration
 	c01A = &EnumSpec{Feats: []Feat{
-		{Name: "kind", Vals: []string{"request-to-backend", "response", "request-by-route-tcp"}},
+		{Name: "kind", Vals: []string{"request-to-backend", "response", "request-by-route-tcp", "pipelined-tcp"}},
 		{Name: "h1", Vals: hv}, {Name: "h2", Vals: hv}, {Name: "h3", Vals: hv, Quick: 1},
 		{Name: "pos", Vals: []string{"after-cseq", "top", "split"}},
 		{Name: "body", Vals: bodies},
@@ -268,6 +347,8 @@ func init() {
 			in.path = "response"
 		case "request-by-route-tcp":
 			in.path, in.arrival, in.departure = "route", "tcp", "tcp"
+		case "pipelined-tcp":
+			in.arrival, in.pipelined = "tcp", true
 		}
 		return c01Run(in)
 	}
@@ -288,6 +369,7 @@ func init() {
 		{Name: "status", Vals: []string{"200", "100", "180", "302", "404", "503", "603", "699"}, Quick: 4},
 		{Name: "h1", Vals: []string{"absent", "pct", "empty", "contact-m", "bin", "substate", "expires"}, Quick: 4},
 		{Name: "body", Vals: []string{"empty", "text", "soup"}},
+		{Name: "parties", Vals: []string{"plain", "mixed-case", "decorated", "tel-urn", "addr-spec"}},
 	}, Sample: 10000}
 	c01B.Valid = func(v []int) bool {
 		s := c01B
@@ -301,6 +383,10 @@ func init() {
 		if s.Val(v, "path") == "backend" && s.Val(v, "departure") == "tcp" {
 			return false
 		}
+		// the parties cross is reduced: non-plain parties with the default listener configuration only
+		if v[s.idx("parties")] != 0 && (v[s.idx("received")] != 0 || v[s.idx("mustrr")] != 0 || v[s.idx("keep")] != 0 || v[s.idx("ruri")] != 0) {
+			return false
+		}
 		return true
 	}
 	c01B.Eval = func(v []int) (string, string, bool) {
@@ -311,11 +397,12 @@ func init() {
 		}
 		st, _ := strconv.Atoi(s.Val(v, "status"))
 		in := c01In{path: s.Val(v, "path"), arrival: s.Val(v, "arrival"), departure: s.Val(v, "departure"), method: s.Val(v, "method"), status: st,
-			ruri: c01URIs[s.Val(v, "ruri")], extra: hs, clname: "Content-Length", body: c01Body(s.Val(v, "body")), cfg: c01Cfg(s.Val(v, "received"), s.Val(v, "mustrr"), s.Val(v, "keep"))}
+			ruri: c01URIs[s.Val(v, "ruri")], extra: hs, clname: "Content-Length", body: c01Body(s.Val(v, "body")), cfg: c01Cfg(s.Val(v, "received"), s.Val(v, "mustrr"), s.Val(v, "keep")),
+			parties: s.Val(v, "parties")}
 		return c01Run(in)
 	}
 	addCheck(&Check{ID: "C01", Level: "exploration",
-		Rule:   "two complete products on fresh simulated worlds: (A) content: all sequences of 0-2 (thorough 0-3) extension headers over an 18-shape alphabet (compact/odd-case/repeated names, empty value, %, quotes, separators, UTF-8, bytes >= 0x80, 16 KiB value) x position x 7 body classes (incl. NUL/CR/LF soup, SIP-like body, 4097 B, 60 KiB of all byte values) x Content-Length spelling x {request to backend, response, request by Route over TCP}; (B) paths: {backend, Route, static route, response by Via} x arrival UDP/TCP x departure UDP/TCP x received/must-record-route/keep-next-hop x 14 Request-URI forms x methods / status codes x header x body; the emission is read by the independent reader; non-trivial = the message was relayed",
+		Rule:   "two complete products on fresh simulated worlds: (A) content: all sequences of 0-2 (thorough 0-3) extension headers over an 18-shape alphabet (compact/odd-case/repeated names, empty value, %, quotes, separators, UTF-8, bytes >= 0x80, 16 KiB value) x position x 7 body classes (incl. NUL/CR/LF soup, SIP-like body, 4097 B, 60 KiB of all byte values) x Content-Length spelling x {request to backend, response, request by Route over TCP}; (B) paths: {backend, Route, static route, response by Via} x arrival UDP/TCP x departure UDP/TCP x received/must-record-route/keep-next-hop x 14 Request-URI forms x methods / status codes x header x body x 5 From/To shapes (mixed-case hosts, decorated URIs, tel/urn, addr-spec form; in-dialog so that dialog identifiers are computed); plus three requests pipelined on one TCP connection; the emission is read by the independent reader; non-trivial = the message was relayed",
 		Assume: []string{"well-formed messages of the stated domain (CRLF, single blanks, explicit Content-Length, no folding)"},
 		Run:    func(c *Ctx) { c01A.Run(c); c01B.Run(c) },
 		Replay: func(c *Ctx, raw json.RawMessage) string {
